@@ -4,6 +4,7 @@ package checks
 
 import (
 	"fmt"
+	"os"
 	"path/filepath"
 	"strings"
 	"testing"
@@ -84,6 +85,10 @@ func c01Run(c c01Case) (v *verdict, prog *progen.Program, labels []string) {
 				rc.Abort("go run failed: %s", want.Brief())
 			}
 			got := box.GarbleX(c.Cfg, src, nil, []string{"GOTRACEBACK=none"}, append(append(append([]string{"run"}, extra...), "."), args...)...)
+			// The statement covers stdout and exit status. The wrappers' own
+			// stderr chatter ("exit status N", printed once by go run and once
+			// more by garble) is not program behaviour, so it is not compared.
+			want.Stderr, got.Stderr = "", ""
 			if d := diffRuns(want, got); d != "" {
 				return &verdict{Key: "C01/run-differs", Msg: fmt.Sprintf("garble %s run with args %q differs from go run (features %s): %s\n--- go run\n%s\n--- garble run\n%s", c.Cfg.Key(), args, prog.FeatureSet(), d, want.Brief(), got.Brief())}, prog, labels
 			}
@@ -189,7 +194,19 @@ func TestC01(t *testing.T) {
 func TestC01Replay(t *testing.T) {
 	rc.Fixed(t, func() {
 		var c c01Case
-		loadReplay(&c)
+		switch os.Getenv("VERIF_FINDING") {
+		case "":
+			loadReplay(&c)
+		case "C01/run-differs":
+			// garble run . 13 x: program arguments were listed as packages
+			c = c01Case{Cmd: "run", Spec: progen.Spec{ModPath: "zqsimple", Pkgs: []progen.PkgSpec{{Name: "main"}},
+				Feats: []progen.Feat{{Kind: "closure", P: []int{1, 2, 3, 4}, Imp: "plain"}}, Args: [][]string{{"13", "x"}}}}
+		case "C01/build-fails/no-struct-for-field":
+			c = c01Case{Cmd: "build", Spec: progen.Spec{ModPath: "zqsimple", Pkgs: []progen.PkgSpec{{Name: "main"}, {Dir: "pkzq1w", Name: "pkzq1w"}},
+				Feats: []progen.Feat{{Kind: "genericanon", Prov: 1, User: 0, P: []int{1, 2, 3, 4}, Imp: "plain"}}, Args: [][]string{{"5"}}}}
+		default:
+			rc.Abort("unknown finding %s", os.Getenv("VERIF_FINDING"))
+		}
 		v, prog, labels := c01Run(c)
 		stats.Case(prog.FeatureSet(), true, labels, nil)
 		if v != nil {
